@@ -718,6 +718,8 @@ class Interp:
         b = ident(b_op, bsid)
         if a is None or b is None:
             return None
+        if op in COMMUTATIVE and repr(b) < repr(a):
+            a, b = b, a          # `F & flags` and `flags & F` are one value
         return (op, a, b)
 
     # ---- relations ---------------------------------------------------------------------
@@ -864,6 +866,26 @@ class Interp:
             return False
         st.iv[sid] = (v, v)
         d = self.syms[sid].defn
+        if depth <= 6 and sid in self.ite:
+            # a joined bool (`a && b`, `if c { x } else { false }`): the value selects the branch it can have come from
+            for ps, cases in list(self.ite[sid].items()):
+                piv = st.iv.get(ps)
+                if piv is None or piv[0] is None or len(cases) < 2:
+                    continue
+                span_lo = min(pa[0] for pa, _ in cases)
+                span_hi = max(pa[1] for pa, _ in cases)
+                if piv[0] < span_lo or piv[1] > span_hi:
+                    continue          # the recorded cases do not cover what the pivot may be here
+                live = [pa for pa, va in cases if not (pa[1] < piv[0] or piv[1] < pa[0])]
+                keep = [pa for pa, va in cases if va[0] <= v <= va[1] and not (pa[1] < piv[0] or piv[1] < pa[0])]
+                if len(keep) == 1 and len(live) > 1:
+                    nlo, nhi = max(piv[0], keep[0][0]), min(piv[1], keep[0][1])
+                    if nlo <= nhi and (nlo, nhi) != tuple(piv):
+                        if self.syms[ps].ty == "bool" and nlo == nhi:
+                            if not self.assume_bool(st, ps, bool(nlo), depth + 1):
+                                return False
+                        else:
+                            st.iv[ps] = (nlo, nhi)
         if not d or depth > 6:
             return True
         if d[0] == "cmp":
@@ -1069,6 +1091,9 @@ class Interp:
                     nlo, nhi = max(cur[0], lo_), min(cur[1], hi_)
                     if nlo <= nhi:
                         st.iv[sid_] = (nlo, nhi)
+                        if nlo == nhi and self.syms[sid_].ty == "bool" and (cur[0], cur[1]) != (nlo, nhi):
+                            # `ensure(a <= b, ..)?` succeeded: the condition the caller computed holds
+                            self.assume_bool(st, sid_, bool(nlo))
                 if ub_ and not _size_derived(st.ub.get(sid_) or ()):
                     st.ub[sid_] = ub_
                 continue
@@ -1383,6 +1408,17 @@ class Interp:
         p = strip_generics(decl or "")
         last = p.split("::")[-1] if p else ""
         full = t["callee"].get("full") or ""
+        # --- trivial local helper (straight-line, no calls, no branches): its value is an expression of the arguments;
+        #     evaluating that expression here gives the result the same identity an inline spelling would have
+        if path in self.fx.fns and not dest[1:]:
+            tree = _trivial_expr(self.fx, path)
+            if tree is not None:
+                r = self.eval_tree(st, tree, args, at, 0)
+                if r is not None and r[0] is not None:
+                    self.kill(st, dest)
+                    self.bind(st, dest, r[0])
+                    self.note_ok_posts(st, path, args, dest, at)
+                    return "pure"
         # --- local callee with a return summary
         if path in self.summaries:
             summ = self.summaries[path]
@@ -1791,6 +1827,77 @@ class Interp:
             self.set_dest(st, dest, (), None, None, prov, at, None, dty)
         if path in self.fx.fns:
             self.note_ok_posts(st, path, args, dest, at)
+        return None
+
+    def eval_tree(self, st, tree, args, at, n):
+        """(sid, lo, hi, prov) of an expression tree of a trivial helper, evaluated on the caller's argument operands"""
+        k = tree[0]
+        if k == "p":
+            if tree[1] - 1 >= len(args):
+                return None
+            return self.read_op(st, args[tree[1] - 1], at)
+        if k == "c":
+            return (None, tree[2], tree[2], frozenset(["C"]))
+        if k == "cast":
+            r = self.eval_tree(st, tree[1], args, at, n + 1)
+            if r is None:
+                return None
+            rng = ty_range(tree[2])
+            if rng and r[1] is not None and rng[0] <= r[1] and r[2] <= rng[1]:
+                return r
+            return None
+        if k == "bin":
+            _, op, A, B, ty = tree
+            a = self.eval_tree(st, A, args, at, 2 * n + 1)
+            b = self.eval_tree(st, B, args, at, 2 * n + 2)
+            if a is None or b is None:
+                return None
+
+            def ident(x, t):
+                if x[0] is not None:
+                    return ("s", x[0])
+                if t[0] == "c":
+                    return ("c", t[1], str(t[2]))
+                if t[0] == "p" and t[1] - 1 < len(args):
+                    c_ = args[t[1] - 1].get("const")
+                    if c_ is not None and c_.get("val") is not None:
+                        return ("c", c_.get("ty"), str(c_["val"]))
+                return None
+            ia, ib = ident(a, A), ident(b, B)
+            if op in COMMUTATIVE and ia is not None and ib is not None and repr(ib) < repr(ia):
+                ia, ib = ib, ia
+            vk = (op, ia, ib) if ia is not None and ib is not None else None
+            prov = (a[3] or frozenset()) | (b[3] or frozenset())
+            if op in ("Eq", "Ne", "Lt", "Le", "Gt", "Ge"):
+                res = _decide(op, a[1], a[2], b[1], b[2])
+                cs = self.new_sym(("gvn",) + vk if vk else ("inl", at, n), 0, 1, prov, ("cmp", op, a[0], b[0], (a[1], a[2]), (b[1], b[2])), "bool")
+                prev = st.iv.get(cs) if vk else None
+                st.iv[cs] = (res, res) if res is not None else (0, 1)
+                if prev is not None and prev[0] == prev[1] and res is None:
+                    st.iv[cs] = prev
+                if res is None and a[0] is not None and b[0] is not None:
+                    r2 = self.decide_rel(st, op, a[0], b[0])
+                    if r2 is not None:
+                        st.iv[cs] = (r2, r2)
+                return (cs, st.iv[cs][0], st.iv[cs][1], prov)
+            lo, hi = self.arith(op, a[1], a[2], b[1], b[2], ty)
+            if lo is None:
+                return None
+            if not self.fits(lo, hi, ty):
+                # a checked operation: the helper's own assert is its obligation; here the value is what passes it
+                lo, hi = self.clip(lo, hi, ty)
+            ns = self.new_sym(("gvn",) + vk if vk else ("inl", at, n), lo, hi, prov, ("bin", op, a[0], b[0], (a[1], a[2]), (b[1], b[2])), ty)
+            prev = st.iv.get(ns) if vk else None
+            if prev is not None and prev[0] is not None:
+                lo, hi = max(lo, prev[0]), min(hi, prev[1])
+                if lo > hi:
+                    lo, hi = prev
+            st.iv[ns] = (lo, hi)
+            if op == "Add" and a[0] is not None and b[1] is not None and b[1] >= 0:
+                st.rel.add((a[0], "<=", ns))
+            if op == "Sub" and a[0] is not None and b[1] is not None and b[1] >= 0 and lo >= 0:
+                st.rel.add((ns, "<=", a[0]))
+            return (ns, lo, hi, prov)
         return None
 
     # ---- return summary ------------------------------------------------------------------------
@@ -2249,6 +2356,71 @@ TRANSPARENT = {
     "core::iter::traits::iterator::Iterator::step_by", "core::iter::traits::iterator::Iterator::flatten",
 }
 TRANSPARENT_LAST = {"iter", "as_ref", "as_slice", "as_str", "as_bytes", "deref", "borrow", "values", "keys"}
+
+
+COMMUTATIVE = ("BitAnd", "BitOr", "BitXor", "Add", "Mul", "AddUnchecked", "MulUnchecked")
+_TRIVIAL = {}
+
+
+def _trivial_expr(fx, fid):
+    """expression tree of a local function whose body is straight-line code without calls or branches (asserts allowed) and
+    whose result is built from its by-value integer / bool parameters and constants with comparisons and arithmetic:
+    ("p", n) | ("c", ty, value) | ("cast", tree, ty) | ("bin", op, tree, tree, ty).  None for everything else."""
+    if fid in _TRIVIAL:
+        return _TRIVIAL[fid]
+    _TRIVIAL[fid] = None
+    fn = fx.fns.get(fid)
+    body = body_of(fn) if fn else None
+    if body is None or body.n > 6 or fn.get("kind") not in ("Fn", "AssocFn"):
+        return None
+    for b in range(body.n):
+        t = body.term(b)
+        if t["k"] in ("call", "switch", "tailcall", "drop"):
+            return None
+    for l in range(1, body.argc + 1):
+        if body.locals[l]["ty"] not in INT_TYPES and body.locals[l]["ty"] != "bool":
+            return None
+
+    def conv(op, depth=0):
+        if depth > 8:
+            return None
+        c = op.get("const")
+        if c is not None:
+            v = c.get("val")
+            if isinstance(v, bool):
+                v = int(v)
+            return ("c", c.get("ty"), v) if isinstance(v, int) else None
+        pl = op_place(op)
+        if pl is None:
+            return None
+        l = pl["l"]
+        if not pl["p"] and 1 <= l <= body.argc:
+            return ("p", l)
+        sd = body.single_def(l)
+        if sd is None or sd[2] != "assign":
+            return None
+        rv = sd[3]
+        if pl["p"]:
+            # `(tmp.0)` of a checked operation
+            if len(pl["p"]) == 1 and isinstance(pl["p"][0], dict) and pl["p"][0].get("f") == "0" and rv["k"] in ("bin", "checked") and str(rv.get("op", "")).endswith("WithOverflow"):
+                a_, b_ = conv(rv["a"], depth + 1), conv(rv["b"], depth + 1)
+                return ("bin", rv["op"][:-len("WithOverflow")], a_, b_, rv.get("aty") or body.locals[l]["ty"]) if a_ and b_ else None
+            return None
+        if rv["k"] == "use":
+            return conv(rv["a"], depth + 1)
+        if rv["k"] == "cast" and rv.get("ck") == "IntToInt":
+            x = conv(rv["a"], depth + 1)
+            return ("cast", x, rv.get("to")) if x else None
+        if rv["k"] == "bin" and not str(rv.get("op", "")).endswith("WithOverflow"):
+            a_, b_ = conv(rv["a"], depth + 1), conv(rv["b"], depth + 1)
+            op_ = str(rv["op"]).replace("Unchecked", "")
+            return ("bin", op_, a_, b_, rv.get("aty") or body.locals[l]["ty"]) if a_ and b_ else None
+        return None
+    tree = conv({"copy": {"l": 0, "p": [], "ty": body.locals[0]["ty"]}})
+    if tree is not None and tree[0] in ("p", "c"):
+        tree = None          # identity / constant functions gain nothing
+    _TRIVIAL[fid] = tree
+    return tree
 
 
 def _size_derived(prov):
